@@ -85,7 +85,7 @@ def trace_signature(fam, diag):
     return f"{fam}/trace/{ev['e']}/after:{prev}"
 
 
-def family_pipeline(fam, progs, outdir, cap=20000, do_mc=True, workers=8, max_diag=6, clock=False, sample=None):
+def family_pipeline(fam, progs, outdir, cap=20000, do_mc=True, workers=8, max_diag=6, clock=False, sample=None, pb=None):
     """Run one program family through enumeration (or, with sample=iters, sampling under the built-in
     schedulers with the record/replay differential), trace-trie validation and outcome comparison."""
     t0 = time.time()
@@ -93,7 +93,13 @@ def family_pipeline(fam, progs, outdir, cap=20000, do_mc=True, workers=8, max_di
     if sample:
         extra = ("--mode", "sample", "--iters", str(sample), "--seed", str(vlib.seed()), "--slen")
         do_mc = False
+    if pb is not None:
+        # preemption-bounded systematic enumeration (all schedules with at most `pb` preemptions)
+        extra = tuple(extra) + ("--pb", str(pb))
     meta, t_enum = vlib.run_enum(progs, outdir, cap=cap, clock=clock, extra=extra)
+    if pb is not None:
+        for m in meta:
+            m["capped"] = True     # not the whole tree: outcome sets are compared in the impl-in-spec direction only
     by_id = {p["id"]: p for p in progs}
     problems = []
     crashed = [m for m in meta if m.get("crashed")]
@@ -119,6 +125,8 @@ def family_pipeline(fam, progs, outdir, cap=20000, do_mc=True, workers=8, max_di
     for m in meta:
         for b in m.get("budgets", []):
             rets = b["returns"]
+            if any(n is not None and n > 10**9 for _, n in rets):
+                continue  # the scheduler refused to continue (PCT without any concurrency): not a budget question
             exp_max = b["budget"]
             bad = None
             if b["sched"] in ("random", "urw", "pct", "rr", "stopper"):
@@ -233,8 +241,8 @@ def family_pipeline(fam, progs, outdir, cap=20000, do_mc=True, workers=8, max_di
 # ---------------------------------------------------------------------------------------------
 # Property table.  Each stage: (family, programs quick, programs thorough, do_mc)
 
-def F(fam, q, t, mc=True, sample=None):
-    return {"fam": fam, "quick": q, "thorough": t, "mc": mc, "sample": sample}
+def F(fam, q, t, mc=True, sample=None, pb=None):
+    return {"fam": fam, "quick": q, "thorough": t, "mc": mc, "sample": sample, "pb": pb}
 
 
 def S(fam, q, t):
@@ -279,7 +287,9 @@ SHUTTLE_PROPS = {
     "C04": {"stages": [F("mutex", 20, 200), F("rwlock", 16, 150), F("atomic", 20, 200), F("corpus_locks", 0, 0)],
             "assume": ["8-bit atomics in the specification; all orderings treated as SeqCst (Shuttle's documented model)"]},
     "C05": {"stages": [F("condvar", 18, 200), F("barrier", 20, 150), F("barrier_reuse", 12, 100), F("once", 16, 150),
-                       F("park", 20, 150), F("corpus_sync", 0, 0)],
+                       F("park", 20, 150), F("park_mix", 16, 150), F("corpus_sync", 0, 0),
+                       {"fam": "corpus_sync_big", "quick": 0, "thorough": 0, "mc": False, "sample": (500, 3000)},
+                       F("corpus_sync_big", 0, 0, mc=False), F("corpus_sync_pb", 0, 0, mc=False, pb=3)],
             "assume": ["condvar waits never wake spuriously, park may; barrier leader = arrival completing the group"]},
     "C06": {"stages": [F("mpsc", 30, 300), F("mpsc_drop", 30, 300), F("corpus_mpsc", 0, 0)],
             "assume": ["blocked senders/receivers are served FIFO (Shuttle's documented model)"]},
@@ -301,11 +311,11 @@ def stage_programs(fam, n):
     return gen.family(fam, n, vlib.seed())
 
 
-def cached_pipeline(fam, progs, tier, cap, do_mc, sample=None):
+def cached_pipeline(fam, progs, tier, cap, do_mc, sample=None, pb=None):
     """Family results are shared between the checks of one tree: the key covers the harness binary
     (rebuilt from /repo's working tree just before), the specification, the tools and the programs."""
     import hashlib
-    key = hashlib.sha256(json.dumps([vlib.bin_hash(), vlib.spec_hash(), fam, tier, cap, do_mc, sample, vlib.seed(), progs],
+    key = hashlib.sha256(json.dumps([vlib.bin_hash(), vlib.spec_hash(), fam, tier, cap, do_mc, sample, pb, vlib.seed(), progs],
                                     sort_keys=True).encode()).hexdigest()[:24]
     cdir = os.path.join(vlib.WORK, "cache")
     os.makedirs(cdir, exist_ok=True)
@@ -317,8 +327,8 @@ def cached_pipeline(fam, progs, tier, cap, do_mc, sample=None):
             return r
         except Exception:
             pass
-    out = os.path.join(vlib.WORK, f"run-{fam}-{tier}" + ("-s" if sample else ""))
-    r = family_pipeline(fam, progs, out, cap=cap, do_mc=do_mc, sample=sample)
+    out = os.path.join(vlib.WORK, f"run-{fam}-{tier}" + ("-s" if sample else "") + (f"-pb{pb}" if pb is not None else ""))
+    r = family_pipeline(fam, progs, out, cap=cap, do_mc=do_mc, sample=sample, pb=pb)
     r.pop("meta", None)
     # keep a few sample traces for the evidence
     r["sample"] = sample_trace(out)
@@ -750,7 +760,9 @@ def run_property(pid, tier):
         if not progs:
             continue
         smp = st["sample"][0 if tier == "quick" else 1] if st.get("sample") else None
-        r = cached_pipeline(st["fam"], progs, tier, cap, st["mc"], sample=smp)
+        pbv = st.get("pb")
+        pcap = cap if pbv is None else (25000 if tier == "quick" else 400000)
+        r = cached_pipeline(st["fam"], progs, tier, pcap, st["mc"], sample=smp, pb=pbv)
         fams.append(r["summary"])
         for k, v in r["summary"].items():
             if isinstance(v, (int, float)) and k not in ("wall",) and not k.startswith("t_"):
